@@ -21,8 +21,11 @@ WORDS = ["alpha", "beta", "gamma", "delta", "one", "two", "six"]
 
 
 class Gen:
-    def __init__(self, r, fam: str, stream: str, W: int):
+    def __init__(self, r, fam: str, stream: str, W: int, dense: bool = False):
         self.r, self.fam, self.stream, self.W = r, fam, stream, W
+        # dense: Python only, no blank / comment / docstring / import line anywhere, so that every window spans
+        # exactly W source lines (outside the defect class of q_overlap_asym)
+        self.dense = dense
         self.fresh = 0
         # how often the defect classes are provoked: statements whose code contains `#` / `//`, and /* */ comments
         self.marker_rate = r.choice([0.0, 0.0, 0.0, 0.06, 0.2])
@@ -200,7 +203,7 @@ class Gen:
     def body(self, lang, pool_rs, base: str, in_func: bool, out: list):
         r = self.r
         pool, rs = pool_rs
-        noise = r.choice([0.0, 0.0, 0.1, 0.2, 0.35])
+        noise = 0.0 if self.dense else r.choice([0.0, 0.0, 0.1, 0.2, 0.35])
         nseg = r.randint(1, 4)
         any_stmt = False
         for _ in range(nseg):
@@ -242,16 +245,16 @@ class Gen:
         r, lang, out = self.r, f["lang"], f["lines"]
         py = lang == "py"
         ind = r.choice(["    ", "    ", "  ", "\t"]) if py else r.choice(["  ", "    ", "\t"])
-        if r.random() < 0.25:
+        if not self.dense and r.random() < 0.25:
             if py:
                 self.docstring(out, "")
             else:
                 self.jsdoc(out, "")
-        if r.random() < 0.4:
+        if not self.dense and r.random() < 0.4:
             self.imports(out, lang)
         nunits = r.randint(1, 4)
         for u in range(nunits):
-            if out and r.random() < 0.7:
+            if out and not self.dense and r.random() < 0.7:
                 out.append(["C", "", "", None])
             t = r.random()
             name = r.choice(FUNCS) + str(u)
@@ -285,7 +288,7 @@ class Gen:
             self.jsdoc(out, base)
         if py:
             out.append(["C", base, f"{'async ' if r.random() < 0.1 else ''}def {name}({args}):", None])
-            if r.random() < 0.3:
+            if not self.dense and r.random() < 0.3:
                 self.docstring(out, base + ind)
         elif method:
             out.append(["C", base, f"{name}({args}) {{", None])
@@ -377,4 +380,5 @@ def gen_project(r, stream: str) -> dict:
     W = r.choice([2, 2, 3, 3, 3, 4, 4, 5, 6])
     k = r.choice([2, 2, 2, 2, 3, 3, 4])
     fam = r.choice(["py", "py", "ts", "ts", "mix"])
-    return Gen(r, fam, stream, W).project(k)
+    dense = stream == "ord" and r.random() < 0.15
+    return Gen(r, "py" if dense else fam, stream, W, dense).project(k)
